@@ -98,9 +98,11 @@ func (o ofDump[V]) close()                               { o.c.VerifClose() }
 func (o ofDump[V]) deleteAll()                           { o.c.DeleteAll(bg) }
 func (o ofDump[V]) wdr() cache.WalkDumpRestorer          { return o.c.WalkDumpRestorer() }
 
+// The janitor never runs (interval); DeleteExpiredAfter keeps its 24h default so that entries
+// expired longer ago than that exist in the caches (they are still entries and must be transferred).
 var dumpCfg = cache.Config{
 	TimeToLive: cache.UnlimitedTTL, ExpirationJitter: -1,
-	DeleteExpiredJobInterval: farFuture, DeleteExpiredAfter: farFuture,
+	DeleteExpiredJobInterval: 2 * farFuture,
 }
 
 func newDumpCache(c *Case, family string) dumpCache {
@@ -304,8 +306,13 @@ func fillAndTransfer(c *Case, chain []string, transfer func(src, dst dumpCache, 
 		v, zero := drawValue(c, chain[0], len(keys))
 
 		var ttl time.Duration
-		if c.Weighted("ttl", 1, 1) == 1 {
+
+		switch c.Weighted("ttl", 5, 5, 1) {
+		case 1:
 			ttl = time.Duration(c.Int("ttlmin", -3, 60)) * time.Minute
+		case 2:
+			ttl = -48 * time.Hour // expired longer ago than DeleteExpiredAfter, not yet cleaned up
+			c.Class("long-expired-entry")
 		}
 
 		if zero || ttl == 0 {
